@@ -34,43 +34,72 @@ impl Core {
         let op = op.strip_prefix("e2e ").unwrap_or(op);
         let (cmd, rest) = op.split_once(' ').unwrap_or((op, ""));
         match cmd {
-            "derive" => match SessP::parse(rest) {
-                None => "bad-op".into(),
-                Some(sp) => match build(&sp) {
-                    Err(e) => format!("ERR {}", e),
-                    Ok(s) => s.derived().fmt(true),
-                },
-            },
-            "session" => {
+            "derive" => {
                 self.sess = None;
                 match SessP::parse(rest) {
                     None => "bad-op".into(),
                     Some(sp) => match build(&sp) {
-                        Err(e) => format!("ERR {}", e.replace(' ', "_")),
+                        Err(e) => format!("ERR {}", e),
                         Ok(s) => {
-                            let d = s.derived();
-                            let obs = if d != sp {
-                                "derived-mismatch".to_string()
-                            } else if let Some(p) = &s.sender_panic {
-                                self.oracle_sender_panic(&s, p, o);
-                                format!("PANIC {}", p)
-                            } else {
-                                let refused: Vec<String> =
-                                    s.objs.iter().filter(|x| x.created && x.toi.is_none()).map(|x| x.idx.to_string()).collect();
-                                self.oracle_refusal(&s, o);
-                                format!(
-                                    "ok n={} h={} refused={}{}",
-                                    s.stream.len(),
-                                    s.hash,
-                                    if refused.is_empty() { "-".to_string() } else { refused.join(",") },
-                                    if s.stuck { " stuck" } else { "" }
-                                )
-                            };
+                            let line = s.derived().fmt(true);
                             self.sess = Some(s);
-                            obs
+                            line
                         }
                     },
                 }
+            }
+            "session" => {
+                let sp = match SessP::parse(rest) {
+                    None => {
+                        self.sess = None;
+                        return "bad-op".into();
+                    }
+                    Some(sp) => sp,
+                };
+                // the session just derived is reused; otherwise (replay) rebuild it.  The FDT's File
+                // order comes from a HashMap, so a *compressed* FDT's length can differ from run to
+                // run: rebuild until the derived facts are those of the operation line.
+                let reuse = matches!(&self.sess, Some(s) if s.derived() == sp);
+                if !reuse {
+                    self.sess = None;
+                    let mut last_err = None;
+                    for _ in 0..300 {
+                        match build(&sp) {
+                            Err(e) => {
+                                last_err = Some(e);
+                                break;
+                            }
+                            Ok(s) => {
+                                let same = s.derived() == sp;
+                                self.sess = Some(s);
+                                if same {
+                                    break;
+                                }
+                            }
+                        }
+                    }
+                    if let Some(e) = last_err {
+                        return format!("ERR {}", e.replace(' ', "_"));
+                    }
+                }
+                let s = self.sess.as_ref().unwrap();
+                if s.derived() != sp {
+                    self.sess = None;
+                    return "derived-mismatch".to_string();
+                }
+                if let Some(p) = &s.sender_panic {
+                    self.oracle_sender_panic(s, p, o);
+                    return format!("PANIC {}", p);
+                }
+                let refused: Vec<String> = s.objs.iter().filter(|x| x.created && x.toi.is_none()).map(|x| x.idx.to_string()).collect();
+                self.oracle_refusal(s, o);
+                format!(
+                    "ok n={} h={} refused={}{}",
+                    s.stream.len(),
+                    s.hash,
+                    if refused.is_empty() { "-".to_string() } else { refused.join(",") },
+                    if s.stuck { " stuck" } else { "" }
+                )
             }
             "cycle" => match &self.sess {
                 None => "no-session".into(),
@@ -152,7 +181,13 @@ impl Core {
     }
 
     fn known_sender_class(&self, s: &Session, oi: &ObjInfo) -> Option<&'static str> {
-        let _ = s;
+        // the FDT itself is an object coded with the session's default OTI
+        if s.sp.oti.sch == Scheme::Raptor && (s.fdts.is_empty() || s.fdts.iter().any(|f| ks_of(&s.sp.oti, f.len).iter().any(|k| *k < 4))) {
+            return Some("C01:raptor-block-lt4");
+        }
+        if matches!(s.sp.oti.sch, Scheme::Rs | Scheme::RsUs) && s.sp.oti.p == 0 {
+            return Some("C01:D21-rs-parity0");
+        }
         if (oi.p.src == "stream" || oi.p.src == "sparse" || oi.p.src == "file") && oi.p.cenc != "null" {
             return Some("C01:D18-stream-cenc");
         }
